@@ -9,12 +9,14 @@ The probe extensions are defined HERE (nothing in /repo is touched).  Two famili
     between prettify and unescape, or after unescape) fills the slot with a hostile PAYLOAD
        mode 'atomic': `util.AtomicString(payload)` as element text / text of an inline child / tail of a child,
        mode 'attr'  : the payload as an attribute value (title, data-x, href) - plain str, serializer escaping only,
-       mode 'stash' : `md.htmlStash.store(payload)`; the placeholder alone or inside other text, as element text / child
+       mode 'stash' : `md.htmlStash.store(payload)` (the stash looked up at the call, or the stash OBJECT the extension was handed in
+                      extendMarkdown - slot['stash_ref']); the placeholder alone or inside other text, as element text / child
                       text / tail, wrapped as plain str or AtomicString.
     ORACLE (metamorphic, exact): the same conversion with the payload replaced by a neutral alphanumeric TOKEN (for a
     block-level raw payload: `<div TOKEN>`, which is block-level too) gives `twin`; then
        real output == twin.replace(token, f(payload)),   f = lenient cdata escaping (& < >, `"` kept) for atomic text,
        attribute escaping (& < > ") for attribute values, identity for stashed raw text.
+    and every token that was inserted IS in the twin output (absolute part: twin and real cannot both lose the text unnoticed).
     I.e. the payload is where the token is, changed by nothing but the serializer's escaping, and nothing else moved;
     `<p>placeholder</p>` unwrapping for block-level raw HTML is on both sides.  Escaping is re-implemented here.
     In 35 % of the cases ONE instance converts the twin, is reset(), and then converts the real document (what a probe
@@ -170,11 +172,16 @@ def _make_probe_ext(slots, fill):
     from markdown.treeprocessors import Treeprocessor
     from markdown import util
 
+    held = {}    # what the extension kept when it was set up (extendMarkdown): the HtmlStash OBJECT of the instance
+
     def content(md, slot):
         """the str object to put at the insertion point"""
         v = fill(md, slot)
         if slot['mode'] == 'stash':
-            ph = md.htmlStash.store(v)
+            # 'setup': the probe calls store() on the stash object it was handed when the extension was set up (`md.htmlStash` is a
+            # documented attribute; an extension may keep it) - 'call': it looks `md.htmlStash` up at every call
+            stash = held['stash'] if slot.get('stash_ref') == 'setup' else md.htmlStash
+            ph = stash.store(v)
             s = ph if slot['alone'] else 'pre *e* ' + ph + ' post'
             return util.AtomicString(s) if slot['atomic_wrap'] else s
         if slot['mode'] == 'atomic':
@@ -260,6 +267,7 @@ def _make_probe_ext(slots, fill):
 
     class ProbeExt(Extension):
         def extendMarkdown(self, md):
+            held['stash'] = md.htmlStash
             for slot in slots:
                 name = 'probe%d' % slot['i']
                 if slot['kind'] == 'block': md.parser.blockprocessors.register(BlockProbe(md.parser, md, slot), name, slot['prio'])
@@ -295,6 +303,7 @@ def gen_slot(rng, i, exts):
         slot['target'] = rng.randrange(50)
         slot['hosts'] = ['p', 'li', 'td', 'th', 'dd', 'blockquote', 'div'] + ([] if 'toc' in exts else ['h1', 'h2', 'h3'])
     slot['sibling'] = rng.random() < 0.35
+    if mode == 'stash': slot['stash_ref'] = rng.choice(['call', 'call', 'setup'])
     slot['payload'] = payload(rng, raw=(mode == 'stash'))
     if mode == 'stash' and not slot['alone'] and rng.random() < 0.3:
         # raw text with white space at its ends (only when embedded in other text: the final strip() of convert cannot reach it)
@@ -380,11 +389,17 @@ def run_payload_case(case):
         real = convert(False)
         twin = convert(True)
     expected = twin
+    missing = []
     for s in slots:
         tok = tokens.get(s['i'])
         if tok is None: continue    # slot not reached (e.g. marker swallowed by a code block): nothing inserted on either side
+        # absolute part of the oracle: the neutral token (alphanumeric, or `<div TOKEN>` for a block-level raw string) that was inserted /
+        # stashed must BE in the twin output verbatim - otherwise twin and real could both lose the inserted text and still agree
+        if tok not in twin: missing.append(s)
         f = esc_attr if s['mode'] == 'attr' else (lambda x: x) if s['mode'] == 'stash' else esc_cdata
         expected = expected.replace(tok, f(s['payload']))
+    for s in missing:
+        expected += '\n<<slot %d (%s, %s): the inserted token %s is not in the output of the twin conversion: %r>>' % (s['i'], s['mode'], s['kind'], tokens[s['i']], twin[:600])
     return real, expected, tokens
 
 
